@@ -1,7 +1,9 @@
 // c17: binds CLI.tla to the real fq command line (pkg/interp Main + args.jq/options.jq/init.jq).
 //
-//	c17 run <cases.ndjson> <events.ndjson>   run every case {id, argv, files, dirs, stdin} through in-process Main
-//	c17 rand <n> <events.ndjson>             seeded random tagged vectors (see rand.go)
+//	c17 replay <cases.ndjson> <events.ndjson>  TLC-emitted tagged command lines through in-process Main (+ one solo run per input)
+//	c17 parse <vectors.ndjson> <out.ndjson>    the real _args_parse on raw argument vectors
+//	c17 rand <n> <events.ndjson>               seeded random tagged command lines (rand.go), same replay
+//	c17 run <cases.ndjson> <events.ndjson>     ad-hoc {id, argv, files, dirs, stdin} (probing / replay files)
 //
 // The harness contains no oracle: it records exit code, stdout and stderr of real runs.
 package main
@@ -9,9 +11,14 @@ package main
 import (
 	"bytes"
 	"context"
+	"encoding/json"
 	"io"
 	"io/fs"
 	"os"
+	"runtime"
+	"strings"
+	"sync"
+	"sync/atomic"
 	"syscall"
 
 	_ "github.com/wader/fq/format/all"
@@ -126,6 +133,217 @@ func runMain(fsys fs.FS, argv []string, stdin *string) result {
 	return result{Exit: code, Stdout: o.stdout.String(), Stderr: o.stderr.String()}
 }
 
+// ---- fixtures: the file universe of CLI.tla (KindContent / FileKind / RawFileContent / ProgFileTag)
+
+var fixtureFiles = map[string]string{
+	"a.json":  "1\n",
+	"b.json":  "\"s\"\n",
+	"c.json":  "[1,2]\n",
+	"o.json":  "{\"a\":\"x\"}\n",
+	"t.json":  "7",
+	"bad.bin": "garbage\n",
+	"raw.txt": "raw\n",
+	"id.jq":   ".\n",
+	"fail.jq": ".+1\n",
+}
+var fixtureDirs = []string{"dir"}
+var kindFile = map[string]string{"A": "a.json", "B": "b.json", "C": "c.json", "O": "o.json", "T": "t.json", "U": "bad.bin", "D": "dir", "M": "missing"}
+
+func fixtureFS() memFS { return mkfs(fixtureFiles, fixtureDirs) }
+
+func stdinOf(kind string) *string {
+	s, ok := fixtureFiles[kindFile[kind]]
+	if !ok {
+		s = ""
+	}
+	return &s
+}
+
+// byte 0 (from --raw-output0) travels as the marker <NUL> (CLI.tla: NUL)
+func visible(s string) string { return strings.ReplaceAll(s, "\x00", "<NUL>") }
+
+// ---- tagged tokens (CLI.tla: Tok)
+
+type tok struct {
+	K     string   `json:"k"`
+	Names []string `json:"names"`
+	Form  string   `json:"form"`
+	Spell string   `json:"spell"`
+	Inl   bool     `json:"inl"`
+	Val   []string `json:"val"`
+	Cls   string   `json:"cls"`
+	Sym   []string `json:"sym"`
+}
+
+func (t tok) str() string { return strings.Join(t.Sym, "") }
+
+type e2eCase struct {
+	ID    int    `json:"id"`
+	Fam   string `json:"fam"`
+	Group string `json:"group"`
+	Toks  []tok  `json:"toks"`
+	Fidx  []int  `json:"fidx"` // 1-based indices of the tokens that are input files
+	Stdin string `json:"stdin"`
+}
+
+type soloRes struct {
+	Exit   int    `json:"exit"`
+	Stdout string `json:"stdout"`
+}
+
+type e2eEvent struct {
+	ID     int       `json:"id"`
+	Fam    string    `json:"fam"`
+	Group  string    `json:"group"`
+	Toks   []tok     `json:"toks"`
+	Fidx   []int     `json:"fidx"`
+	Stdin  string    `json:"stdin"`
+	Argv   []string  `json:"argv"`
+	Exit   int       `json:"exit"`
+	Stdout string    `json:"stdout"`
+	Stderr string    `json:"stderr"`
+	Solo   []soloRes `json:"solo"`
+}
+
+type soloCache struct {
+	mu sync.Mutex
+	m  map[string]soloRes
+}
+
+// runCase: the command line as given, then once per input file with all other input files removed
+func runE2E(c e2eCase, cache *soloCache) e2eEvent {
+	argv := make([]string, len(c.Toks))
+	for i, t := range c.Toks {
+		argv[i] = t.str()
+	}
+	fsys := fixtureFS()
+	r := runMain(fsys, argv, stdinOf(c.Stdin))
+	ev := e2eEvent{ID: c.ID, Fam: c.Fam, Group: c.Group, Toks: c.Toks, Fidx: c.Fidx, Stdin: c.Stdin, Argv: argv,
+		Exit: r.Exit, Stdout: visible(r.Stdout), Stderr: r.Stderr, Solo: []soloRes{}}
+	if ev.Fidx == nil {
+		ev.Fidx = []int{}
+	}
+	isFile := map[int]bool{}
+	for _, k := range c.Fidx {
+		isFile[k] = true
+	}
+	for _, k := range c.Fidx {
+		var sargv []string
+		for i, a := range argv {
+			if isFile[i+1] && i+1 != k {
+				continue
+			}
+			sargv = append(sargv, a)
+		}
+		key := strings.Join(sargv, "\x01") + "\x02" + c.Stdin
+		cache.mu.Lock()
+		sr, ok := cache.m[key]
+		cache.mu.Unlock()
+		if !ok {
+			r := runMain(fsys, sargv, stdinOf(c.Stdin))
+			sr = soloRes{Exit: r.Exit, Stdout: visible(r.Stdout)}
+			cache.mu.Lock()
+			cache.m[key] = sr
+			cache.mu.Unlock()
+		}
+		ev.Solo = append(ev.Solo, sr)
+	}
+	return ev
+}
+
+func replayAll(cases []e2eCase, outPath string) {
+	evs := make([]e2eEvent, len(cases))
+	cache := &soloCache{m: map[string]soloRes{}}
+	var wg sync.WaitGroup
+	next := int64(-1)
+	nw := runtime.NumCPU()
+	for w := 0; w < nw; w++ {
+		wg.Add(1)
+		go func() {
+			defer wg.Done()
+			for {
+				i := int(atomic.AddInt64(&next, 1))
+				if i >= len(cases) {
+					return
+				}
+				evs[i] = runE2E(cases[i], cache)
+			}
+		}()
+	}
+	wg.Wait()
+	out := kit.NewOut(outPath)
+	for _, e := range evs {
+		out.Emit(e)
+	}
+	out.Close()
+}
+
+// ---- the real _args_parse of args.jq on many vectors in one interpreter
+
+type parseOut struct {
+	Argv   []string        `json:"argv"`
+	Ok     bool            `json:"ok"`
+	Parsed json.RawMessage `json:"parsed,omitempty"`
+	Rest   []string        `json:"rest,omitempty"`
+	Err    string          `json:"err,omitempty"`
+}
+
+const parseProg = `$vs[] | . as $v | try (_args_parse($v; _opt_cli_opts) | {argv: $v, ok: true, parsed: (.parsed // {}), rest}) catch {argv: $v, ok: false, err: .}`
+
+func parseBatch(vs [][]string) []parseOut {
+	b, _ := json.Marshal(vs)
+	r := runMain(fixtureFS(), []string{"-nc", "--argjson", "vs", string(b), parseProg}, stdinOf("A"))
+	if r.Exit != 0 {
+		kit.Fatalf("parse batch failed exit=%d stderr=%s", r.Exit, r.Stderr)
+	}
+	var res []parseOut
+	for _, line := range strings.Split(strings.TrimSpace(r.Stdout), "\n") {
+		if line == "" {
+			continue
+		}
+		var po parseOut
+		kit.Unmarshal([]byte(line), &po)
+		res = append(res, po)
+	}
+	if len(res) != len(vs) {
+		kit.Fatalf("parse batch: %d results for %d vectors", len(res), len(vs))
+	}
+	return res
+}
+
+func parseAll(vs [][]string, outPath string) {
+	const bs = 500
+	nb := (len(vs) + bs - 1) / bs
+	res := make([][]parseOut, nb)
+	var wg sync.WaitGroup
+	next := int64(-1)
+	for w := 0; w < runtime.NumCPU(); w++ {
+		wg.Add(1)
+		go func() {
+			defer wg.Done()
+			for {
+				i := int(atomic.AddInt64(&next, 1))
+				if i >= nb {
+					return
+				}
+				hi := (i + 1) * bs
+				if hi > len(vs) {
+					hi = len(vs)
+				}
+				res[i] = parseBatch(vs[i*bs : hi])
+			}
+		}()
+	}
+	wg.Wait()
+	out := kit.NewOut(outPath)
+	for _, rb := range res {
+		for _, r := range rb {
+			out.Emit(r)
+		}
+	}
+	out.Close()
+}
+
 type runCase struct {
 	ID    string            `json:"id"`
 	Argv  []string          `json:"argv"`
@@ -162,6 +380,30 @@ func main() {
 			out.Emit(runEvent{ID: c.ID, Argv: c.Argv, result: r})
 		})
 		out.Close()
+	case "replay":
+		var cases []e2eCase
+		kit.Cases(os.Args[2], func(_ int, raw []byte) {
+			var c e2eCase
+			kit.Unmarshal(raw, &c)
+			cases = append(cases, c)
+		})
+		replayAll(cases, os.Args[3])
+	case "parse":
+		var vs [][]string
+		kit.Cases(os.Args[2], func(_ int, raw []byte) {
+			var v struct {
+				Argv []string `json:"argv"`
+			}
+			kit.Unmarshal(raw, &v)
+			if v.Argv == nil {
+				v.Argv = []string{}
+			}
+			vs = append(vs, v.Argv)
+		})
+		parseAll(vs, os.Args[3])
+	case "rand":
+		n := kit.Atoi(os.Args[2])
+		replayAll(randCases(n, kit.Seed()), os.Args[3])
 	default:
 		kit.Fatalf("unknown mode")
 	}
